@@ -235,6 +235,8 @@ class Interp:
         self.visited_blocks = set()   # (body id, bb) of executed terminators (coverage)
         self.assumed_sites = set()    # Assert sites whose condition was unknown and assumed to hold
         self.inspect_roots = set()
+        self.undischarged = {}        # (body id, bb) -> description of an obligation that could not be decided
+        self.checked_sites = set()    # (body id, bb) of obligations evaluated at least once
         self.inspected = None         # optional set: (root, path) of scalar leaves / variant tags read
         # http 1.1.0, src/method.rs: `pub const GET: Method = Method(Get);` etc.
         self.variant_links = {"http::method::Inner": {
@@ -435,6 +437,17 @@ class Interp:
                 if len(c[1]) == 1:
                     return True
             return None
+        if t[0] == "lt":
+            if self.decide_le(st, t[1], t[2], True):
+                return True
+            if self.decide_le(st, t[2], t[1], False):
+                return False
+        if t[0] == "addovf":
+            # a + b cannot overflow when both are bounded by slice lengths / small constants
+            big = ("int", (1 << 62))
+            if self.decide_le(st, t[1], big) and self.decide_le(st, t[2], big):
+                return False
+            return None
         if t[0] in ("lt", "eq"):
             a, b = t[1], t[2]
             ia = self.int_constraint(st, a, ty)
@@ -456,6 +469,78 @@ class Interp:
                     return False
                 return None
         return None
+
+    # ---------------------------------------------------------------- order reasoning (E3 inside E4)
+    def upper_edges(self, st, n, depth=0):
+        """leaves m with n <= m (strict flag), from facts and from the structure of n"""
+        out = []
+        if n[0] == "term":
+            t = n[1]
+            c = st.facts.get(t)
+            if c and c[0] == "iv" and c[1]:
+                out.append((("int", c[1][-1][1]), False))
+            if t[0] == "min":
+                out.append((t[1], False))
+                out.append((t[2], False))
+            elif t[0] == "satsub":
+                out.append((t[1], False))
+            elif t[0] == "arith" and t[1] == "Sub" and depth < 3:
+                # a - b <= a provided the subtraction did not wrap (b <= a)
+                if self.decide_le(st, t[3], t[2], False, depth + 1):
+                    out.append((t[2], False))
+            elif t[0] == "cast" and depth < 3:
+                rng = TYPE_RANGE.get(t[2])
+                if rng and self.decide_le(st, ("term", t[1]), ("int", rng[1]), False, depth + 1):
+                    out.append((("term", t[1]), False))
+        for k, c in st.facts.items():
+            if c[0] != "bool":
+                continue
+            if k[0] == "lt":
+                if c[1] and k[1] == n:
+                    out.append((k[2], True))       # n < k2
+                elif not c[1] and k[2] == n:
+                    out.append((k[1], False))      # not (k1 < n)  =>  n <= k1
+            elif k[0] == "eq" and c[1]:
+                if k[1] == n:
+                    out.append((k[2], False))
+                elif k[2] == n:
+                    out.append((k[1], False))
+        return out
+
+    def lower_const(self, st, n):
+        if n[0] == "int":
+            return n[1]
+        if n[0] == "term":
+            c = st.facts.get(n[1])
+            if c and c[0] == "iv" and c[1]:
+                return c[1][0][0]
+            t = n[1]
+            if t[0] in ("len", "len@", "min", "satsub") or (t[0] == "app" and t[1] in ("len",)):
+                return 0
+        return None
+
+    def decide_le(self, st, a, b, strict=False, depth=0):
+        """True iff a <= b (a < b when strict) follows from the facts by transitivity; never guesses"""
+        if a[0] == "int" and b[0] == "int":
+            return a[1] < b[1] if strict else a[1] <= b[1]
+        seen = {}
+        work = [(a, False)]
+        blo = self.lower_const(st, b)
+        steps = 0
+        while work and steps < 200:
+            n, s_ = work.pop()
+            steps += 1
+            if n in seen and (seen[n] or not s_):
+                continue
+            seen[n] = s_
+            if n == b and (s_ or not strict):
+                return True
+            if n[0] == "int" and blo is not None:
+                if n[1] < blo or (n[1] == blo and (s_ or not strict)):
+                    return True
+            for m, st_ in self.upper_edges(st, n, depth):
+                work.append((m, s_ or st_))
+        return False
 
     def assume(self, st, t, val, ty=None):
         """record that boolean term t has value val; returns False if contradictory"""
@@ -769,6 +854,14 @@ class Interp:
             res = self.arith(st, base, a, b, aty)
             if op.endswith("WithOverflow"):
                 ovf = TOP
+                if res[0] != "int" and a[0] in ("int", "term") and b[0] in ("int", "term"):
+                    if base == "Sub":
+                        ovf = self.cmp_leaves(st, "Lt", a, b, aty)        # a - b wraps iff a < b
+                    elif base == "Add":
+                        ovf = ("term", ("addovf", a, b))
+                        v = self.decide(st, ovf[1])
+                        if v is not None:
+                            ovf = ("int", int(v))
                 if res[0] == "int":
                     rng = TYPE_RANGE.get(aty)
                     ovf = ("int", int(bool(rng and not (rng[0] <= res[1] <= rng[1]))))
@@ -993,7 +1086,19 @@ class Interp:
                 return self.goto(st, fr, bb)
         return self.goto(st, fr, t["otherwise"])
 
+    def describe_leaf(self, l):
+        r = repr(l)
+        return r if len(r) < 300 else r[:300] + "..."
+
+    def obligation(self, st, fr, ok, desc):
+        """record the verdict of a bound obligation at the current call site (no path is forked)"""
+        site = (fr.body.id, fr.bb)
+        self.checked_sites.add(site)
+        if not ok:
+            self.undischarged.setdefault(site, desc)
+
     def exec_assert(self, st, fr, t):
+        self.checked_sites.add((fr.body.id, fr.bb))
         c = tree_leaf(self.eval_operand(st, fr, t["cond"]))
         exp = int(t["expected"])
         site = dict(body=fr.body, bb=fr.bb, kind="assert:" + t["msg"]["kind"], src=t["src"], term=t)
@@ -1010,6 +1115,7 @@ class Interp:
         if self.assume_unknown_asserts:
             st.assumed.append((fr.body.id, fr.bb, t["msg"]["kind"]))
             self.assumed_sites.add((fr.body.id, fr.bb))
+            self.undischarged.setdefault((fr.body.id, fr.bb), self.describe_leaf(c))
             if c[0] == "term":
                 self.assume(st, c[1], bool(exp))
             return self.goto(st, fr, t["target"])
